@@ -102,6 +102,9 @@ class Gen:
                 elif cmd == 'impl':
                     self.do_impl(d[1], ' '.join(x for x in d[2:] if '=' not in x or x.startswith('From<')))
                     i += 1
+                elif cmd == 'identcount':
+                    self.do_identcount(d[1], d[2:])
+                    i += 1
                 elif cmd == 'census':
                     self.do_census(d[1], d[2], d[3], _opts(d[4:]))
                     i += 1
@@ -452,6 +455,35 @@ class Gen:
         if record:
             self.functions.append({'fn': qual, 'file': rel, 'lines': [it.line_start, it.line_end], 'sha256': it.sha256,
                                    'loops': len(loops), 'props': props})
+
+    def do_identcount(self, ident, toks):
+        """Syntactic census over the crate: the identifier occurs exactly n times in each listed file and nowhere
+        else under `root=<dir>` (comments and strings are masked out; *_test.rs files are skipped)."""
+        opts = _opts(toks)
+        props = [p for p in opts.pop('props', '').split(',') if p]
+        root = opts.pop('root', 'abasic-core/src')
+        expected = {k: int(v) for k, v in opts.items() if k.endswith('.rs')}
+        base = os.path.join(self.repo, root)
+        seen = {}
+        for dp, _, files in os.walk(base):
+            for fn in files:
+                if not fn.endswith('.rs') or fn.endswith('_test.rs'):
+                    continue
+                full = os.path.join(dp, fn)
+                rel = os.path.relpath(full, self.repo)
+                masked, _ = rsx.mask(open(full, encoding='utf-8').read())
+                # test modules do not count
+                rf = rsx.RustFile(full, rel)
+                spans = rf._test_mod_spans()
+                n = len([m for m in re.finditer(r'\b%s\b' % re.escape(ident), masked) if not any(a <= m.start() < b for a, b in spans)])
+                if n:
+                    seen[rel] = n
+        files = sorted(set(seen) | set(expected))
+        for rel in files:
+            want = expected.get(rel, 0)
+            got = seen.get(rel, 0)
+            self.syntactic.append(('crate', 'census/%s-occurs-%d-times-in-%s' % (ident, want, rel), got == want,
+                                   '%d occurrence(s) of `%s` in %s (expected %d)' % (got, ident, rel, want), props, (rel, 0)))
 
     def do_census(self, rel, impl_match, name, opts):
         """Syntactic census of a function that is NOT brought under Verus: loop count / call-site counts only."""
